@@ -53,13 +53,15 @@ def c11(tier, replay=None):
             if c["bom"] == "inner":
                 body += "#c\ufeffd\n"          # inside a trailing comment: only the character itself can be objected to
             codec, sig = ENC[c["enc"]]
-            data = (sig if c["bom"] == "start" and c["enc"] != "latin1" else b"") + body.encode(codec)
             opts = {"prefer_cif2": c["prefer"], "force": c["force"]}
             if c["named"] != "none":
                 opts["enc"] = ICU_NAME[c["named"]]
             # is the text decoded with its real encoding ?  ASCII-only probes read the same in utf8 and latin1
             right = exp["right"] or (probe == "x" and c["bom"] == "none" and {exp["selected"], c["enc"]} <= {"utf8", "latin1"})
-            jobs.append((ci, probe, data, opts, right))
+            # the line terminator convention (also of the line that carries the version comment) is no input of the decision
+            for eol in ("\n", "\r\n", "\r"):
+                data = (sig if c["bom"] == "start" and c["enc"] != "latin1" else b"") + body.replace("\n", eol).encode(codec)
+                jobs.append((ci, probe, data, opts, right))
 
     def run_chunk(ch):
         cmds = []
